@@ -2,7 +2,6 @@ package c06
 
 import (
 	"fmt"
-	"math"
 	"os"
 	"strings"
 	"sync"
@@ -54,9 +53,16 @@ type locGen struct {
 	sizes  map[keyBlkOff]int64
 }
 
+// maxExtent bounds generated offsets and sizes: 64 TiB, far beyond any block a
+// real block list hands out (and beyond 32 bits, so that a truncating record
+// layout is noticed), while offset+size stays representable. Locations come
+// from a block allocator (offset and offset+size within one block), never
+// from the whole int64 range.
+const maxExtent = int64(1) << 46
+
 func genSize(t *rapid.T) int64 {
 	if rapid.IntRange(0, 3).Draw(t, "sizeClass") == 0 {
-		return rapid.Int64Range(0, math.MaxInt64).Draw(t, "sizeAny")
+		return rapid.Int64Range(0, maxExtent).Draw(t, "sizeAny")
 	}
 	return rapid.Int64Range(0, 100).Draw(t, "sizeSmall")
 }
@@ -67,13 +73,13 @@ func (g *locGen) fresh(t *rapid.T, h *harness) (int, int64) {
 	var off int64
 	switch m := rapid.IntRange(0, 19).Draw(t, "offsetMode"); {
 	case m < 8: // append behind everything in the block, as an allocator would
-		if mo, ok := g.maxOff[blk]; ok && mo < math.MaxInt64-8 {
+		if mo, ok := g.maxOff[blk]; ok && mo < maxExtent {
 			off = mo + 1 + int64(rapid.IntRange(0, 3).Draw(t, "gap"))
 		}
 	case m < 17: // small, anywhere: older than existing entries of the block is likely
 		off = int64(rapid.IntRange(0, 23).Draw(t, "offsetSmall"))
 	default:
-		off = rapid.Int64Range(0, math.MaxInt64-64).Draw(t, "offsetAny")
+		off = rapid.Int64Range(0, maxExtent).Draw(t, "offsetAny")
 	}
 	for {
 		if _, taken := g.used[blkOff{blk, off}]; !taken {
@@ -209,6 +215,14 @@ func property(t *rapid.T, rec *vstats.Recorder, backend, storageType string) {
 	c.ClassIf(s.hiddenDiscard > 0, "discard_without_visible_change")
 	c.ClassIf(s.releasesRemoving > 0, "release_removed_visible_entries")
 	c.ClassIf(s.releases > 0, "has_release")
+	c.ClassIf(s.mechGetOverLimit > 0, "mech_get_read_more_than_get_attempts")
+	c.ClassIf(s.mechGetReadAfterInvalid > 0, "mech_get_read_past_invalid_record")
+	c.ClassIf(s.mechGetWrote > 0, "mech_get_wrote")
+	c.ClassIf(s.mechGetNoRead > 0, "mech_get_not_found_without_read")
+	c.ClassIf(s.mechPutOverLimit > 0, "mech_put_accessed_more_than_put_attempts")
+	c.ClassIf(s.mechPutReadAfterInvalid > 0, "mech_put_read_past_invalid_record")
+	c.ClassIf(s.mechPutNotNewer > 0, "mech_put_overwrote_by_not_newer")
+	c.ClassIf(s.mechAudit > 0, "mech_table_layout_differs")
 	c.ClassIf(cfg.size > 31, "prime_table")
 	c.ClassIf(cfg.size <= 4, "table_le_4")
 	rec.Count("ops_put", int64(s.puts))
